@@ -29,6 +29,7 @@ type Rig struct {
 	Swarm      Swarm
 	Conns      []*simnet.FaultyConn
 	Mems       []*stubs.Memory
+	Resps      []*stubs.Responder
 	Reqs       []*stubs.Requester
 	Horizon    uint64 // cycles
 	HitHorizon bool
@@ -156,6 +157,14 @@ func (r *Rig) Memory(name string, inBuf, outBuf int) *stubs.Memory {
 	return m
 }
 
+// Responder creates a generic responder stub.
+func (r *Rig) Responder(name string, inBuf, outBuf int, handle func(sim.Msg, uint64) []sim.Msg) *stubs.Responder {
+	m := stubs.NewResponder(name, r.Eng, r.Freq, r.Ch, r.MemConfig(name), inBuf, outBuf)
+	m.Serve = handle
+	r.Resps = append(r.Resps, m)
+	return m
+}
+
 // Requester creates a requester stub.
 func (r *Rig) Requester(name string, inBuf, outBuf int) *stubs.Requester {
 	q := stubs.NewRequester(name, r.Eng, r.Freq, r.Ch, inBuf, outBuf)
@@ -205,6 +214,10 @@ func (r *Rig) Faults() map[string]uint64 {
 		f["backpressure"] += c.Stats.StallWindows + c.Stats.SrcCapBlocked
 	}
 	for _, m := range r.Mems {
+		f["slow_lower_level"] += m.Starved + m.Spikes
+		f["ooo_response"] += m.OOOSent
+	}
+	for _, m := range r.Resps {
 		f["slow_lower_level"] += m.Starved + m.Spikes
 		f["ooo_response"] += m.OOOSent
 	}
